@@ -833,6 +833,7 @@ def oracle(ctx, deep=False, only=None):
     res.stats.update({"oracle_" + k: v for k, v in stats.items()})
     res.stats.update({"oracle_" + k: v for k, v in margins.items()})
     res.stats["oracle_tolerance"] = TOL
+    _LAST_ORACLE["new_counterexamples"] = [c["key"] for c in res.counterexamples if c["key"] != FINDING_KEY]
     res.stats["oracle_families"] = fsel
     res.stats["oracle_potentials"] = psel
     if seg_fail:
@@ -939,5 +940,13 @@ def _reference_vectors(ctx, api, res, deep, stats):
                                                "recorded data and are covered by the generic oracle")
 
 
+_LAST_ORACLE = {"new_counterexamples": None}
+
+
 def search(ctx, broken):
+    # the quick oracle already produced a failing input beyond the recorded segment finding: nothing to search for
+    if _LAST_ORACLE["new_counterexamples"]:
+        r = Result()
+        r.notes.append("search skipped: the oracle of this run already found a failing input")
+        return r
     return oracle(ctx, deep=True)
